@@ -14,7 +14,7 @@ def check(ctx, rep):
         "applies the step to every element, additions count as progress and the loop exits only after a pass "
         "that added nothing. R17.5 yield conditions of entry_jobs / exit_jobs as path facts. R17.6 traversal "
         "siblings: the leaf hook yields the job once, container hooks yield self iff requested and delegate to "
-        "every member.")
+        "every member. R17.9 a job is never asked whether it is iterable before it is recognised as a job (a nested scheduler is a collection of jobs: it would be taken apart).")
     rep.trusted = ["T8 set semantics, generators"]
     graphrules.queries(ctx, rep, "R17.1", "R17.2", "R17.3", "R17.4", "R17.5", "R17.6")
     common.relation_builder(ctx, rep, "R17.2")
@@ -23,4 +23,5 @@ def check(ctx, rep):
         'entry_jobs', 'exit_jobs', 'predecessors', 'successors', 'predecessors_upstream', 'successors_downstream',
         'iterate_jobs') or 'neighbours' in f.name]
     common.job_truthiness(ctx, rep, "R17.7", funcs)
+    common.job_iterability(ctx, rep, "R17.9", funcs)
     common.no_state_across_calls(ctx, rep, "R17.8", funcs)
